@@ -235,7 +235,7 @@ EBStep(s, call) ==
          [] call.op = "SetCSel" -> keep(base \o << call.sel % 64 >>)
          [] call.op = "SetNSel" -> keep(base \o << (call.sel % 64) + 64 >>)
          [] call.op = "SetCReg" ->
-              LET form == ColorForm(call.c) IN keep(base \o << 128 + 8 * form + adjB >> \o ColorPayload(call.c, form))
+              LET c == NormC(call.c)  form == ColorForm(c) IN keep(base \o << 128 + 8 * form + adjB >> \o ColorPayload(c, form))
          [] call.op = "SetNReg" ->
               LET r == EncReal(call.f[1])  c == EncCoord(call.f[1])  z == EncZto(call.f[1])
                   pick == IF Len(c) < Len(r)
